@@ -86,7 +86,7 @@ class Workspace:
         self.diffs.append({"file": rel, "kind": "append_raw", "lines": body.count("\n") + 1})
 
 
-CHECK_RE = re.compile(r"^Check (\d+): (\S+)\n\s+- Status: (\S+)\n\s+- Description: \"(.*)\"\n(?:\s+- Location: (.*)\n)?", re.M)
+CHECK_RE = re.compile(r"^Check (\d+): (.+)\n\s+- Status: (\S+)\n\s+- Description: \"(.*)\"\n(?:\s+- Location: (.*)\n)?", re.M)
 
 
 def parse_kani(out):
@@ -98,6 +98,7 @@ def parse_kani(out):
     res["successful"] = "VERIFICATION:- SUCCESSFUL" in out
     res["failed_line"] = "VERIFICATION:- FAILED" in out
     res["stubs"] = re.findall(r"^\s*- Stub: (.*)$", out, re.M)
+    res["failed_summary"] = re.findall(r"^Failed Checks: (.*)$", out, re.M)
     return res
 
 
